@@ -15,7 +15,7 @@ ASSUMPTIONS = [
     "unordered containers are judged STRICTLY: the message must equal the call-site formatting in the source container's own iteration order (read from the argument itself at the top level, from an identically constructed container when nested; libstdc++ copies preserve the order); a message that equals the call-site formatting for another element order is rejected under the canonical signature text:unordered-container-element-order, any other difference keeps its normal signature; two-element unordered_multimaps get distinct keys so that the source order is identifiable",
     "a direct-format type is by definition logged as the string fmtquill::format(\"{}\", obj) produced at the call site; nested in a container it is therefore rendered as a (quoted) string element, which is what UserDefinedTypeLoggingDirectFormatTest expects: the oracle replaces each direct-format leaf by that string",
     "StringRef is the documented opt-out of the deep copy: its target is neither mutated nor destroyed before the backend ran",
-    "sanitisation: BackendOptions documents that check_printable_char applies only when an argument is a string; for statements without a string/C-string/string_view argument both the sanitised and the unsanitised call-site text are accepted",
+    "sanitisation: the message must always equal the call-site text passed through the configured check_printable_char sanitiser; the documented exception (no sanitising when no argument is string-related) is unobservable here because every generated format literal is printable and only char/string/user-type arguments can render non-printable bytes",
     "cases whose call-site formatting itself throws (fmt format_error) are not judged for text",
     "byte counts Codec.tla predicts (with widths measured on the code at check time) are layer I: a mismatch with the code is drift (exit 0), only reserved = written = consumed and the text are the contract",
     "values: seeded draws from boundary pools per abstract shape; strings of the 0/1/2-length shapes are stretched to runs of up to 130 bytes (one 200000-byte string per run that does not fit the queue buffer)",
